@@ -2211,7 +2211,7 @@ static void remove_sent (object_t * ob, object_t * user) {
 static int find_line (const char *p, const program_t * progp, char **ret_file, int *ret_line) {
   int offset;
   unsigned char *lns;
-  short abs_line;
+  unsigned short abs_line; /* the line table stores 16-bit absolute lines: read them unsigned (files beyond 32767 lines) */
   int file_idx;
 
   *ret_file = "";
